@@ -35,11 +35,11 @@ ASSUMPTIONS = [
   'the wrapped module itself (Linen apply / nnx.merge) is the reference: if it is wrong, wrapper and reference are wrong alike',
   'nothing is asserted about the wrapper Rngs after a call that raised (keys are drawn before the wrapped module runs)',
 ]
-PROBES = ['tonnx_runs', 'tolinen_runs', 'mutable_update_propagated', 'eval_call_no_update', 'roundtrip_split_merge', 'fault_in_wrapped', 'nested_in_nnx_parent', 'nested_in_linen_parent', 'partitioned_param_metadata', 'tolinen_sharding_metadata', 'tolinen_rng', 'tolinen_rng_stored_stream', 'full_state_roundtrip', 'call_time_rngs', 'convert_roundtrip', 'tolinen_falsy_metadata', 'user_metadata_set', 'custom_registered_type', 'name_reregistered', 'failed_lazy_init_of_parent', 'call_interleaved_with_bridge_apply']
+PROBES = ['tonnx_runs', 'tolinen_runs', 'mutable_update_propagated', 'eval_call_no_update', 'roundtrip_split_merge', 'fault_in_wrapped', 'nested_in_nnx_parent', 'nested_in_linen_parent', 'partitioned_param_metadata', 'tolinen_sharding_metadata', 'tolinen_rng', 'tolinen_rng_stored_stream', 'tolinen_skip_rng', 'full_state_roundtrip', 'call_time_rngs', 'convert_roundtrip', 'tolinen_falsy_metadata', 'user_metadata_set', 'custom_registered_type', 'name_reregistered', 'failed_lazy_init_of_parent', 'call_interleaved_with_bridge_apply']
 
 
 def setup_worker(w, tier):
-  global np, jax, jnp, nn, nnx, flax, bridge, NMod, NParent, LParent
+  global np, jax, jnp, nn, nnx, flax, bridge, NMod, NModOwn, NParent, LParent
   P.setup()
   np, jax, jnp, nn, flax = P.np, P.jax, P.jnp, P.nn, P.flax
   from flax import nnx
@@ -72,6 +72,12 @@ def setup_worker(w, tier):
         y = y + jax.random.randint(self.rngs.dropout(), y.shape, -3, 4).astype(jnp.float32)
       return y
 
+  class NModOwn(NMod):
+    """Same module, but the constructor takes no rngs (ToLinen(skip_rng=True)): it builds its own streams."""
+
+    def __init__(self, d, use_rng, shard):
+      NMod.__init__(self, d, use_rng, shard, rngs=nnx.Rngs(params=5, dropout=6))
+
   class NParent(nnx.Module):
     def __init__(self, inner):
       self.inner = inner
@@ -99,7 +105,7 @@ def setup_worker(w, tier):
         P.CTL.event('bridge-module-body')
       return x + 1.0
 
-  globals().update(NMod=NMod, NParent=NParent, LParent=LParent, BM=BM)
+  globals().update(NMod=NMod, NModOwn=NModOwn, NParent=NParent, LParent=LParent, BM=BM)
 
 
 def generate(rs, tier):
@@ -143,7 +149,7 @@ def generate(rs, tier):
       ops[-1]['mut_all'] = True
     if g.random() < 0.4:
       ops[-1]['stored_rng'] = True
-  return dict(engine='bridgeworld', knobs=dict(kind='tolinen', custom=custom, tag=g.getrandbits(40), use_rng=g.random() < 0.4, shard=g.choice([False, False, True, True, 'falsy']), nested=g.random() < 0.35, seed=g.randrange(5), batch=g.choice([1, 2])), ops=ops)
+  return dict(engine='bridgeworld', knobs=dict(kind='tolinen', custom=custom, tag=g.getrandbits(40), use_rng=g.random() < 0.4, skip_rng=g.random() < 0.2, shard=g.choice([False, False, True, True, 'falsy']), nested=g.random() < 0.35, seed=g.randrange(5), batch=g.choice([1, 2])), ops=ops)
 
 
 def _fix_streams(sp):
@@ -462,6 +468,10 @@ class ToLinenWorld:
     if k['nested']:
       self.lm = LParent(k['use_rng'], k['shard'])
       res.probe('nested_in_linen_parent')
+    elif k.get('skip_rng'):
+      # documented option: the NNX constructor takes no rngs; the module may still own streams, and apply(rngs=...) reseeds them
+      self.lm = bridge.ToLinen(NModOwn, args=(P.D, k['use_rng'], k['shard']), skip_rng=True)
+      res.probe('tolinen_skip_rng')
     else:
       self.lm = bridge.to_linen(NMod, P.D, k['use_rng'], k['shard'])
     self.x0 = P.make_input(k['batch'], 1)
@@ -578,7 +588,10 @@ class ToLinenWorld:
 
   def ref_module(self, inner, rngs):
     k = self.k
-    m = NMod(P.D, k['use_rng'], k['shard'], rngs=nnx.Rngs(params=0, dropout=1))
+    if k.get('skip_rng') and not k['nested']:
+      m = NModOwn(P.D, k['use_rng'], k['shard'])
+    else:
+      m = NMod(P.D, k['use_rng'], k['shard'], rngs=nnx.Rngs(params=0, dropout=1))
     m.w.value = jnp.asarray(val_of(inner['params']['w']))
     m.count.value = jnp.asarray(val_of(inner['batch_stats']['count']))
     if k.get('custom') and 'ema' in vars(m):
